@@ -8,7 +8,7 @@
    typical services), the index table, create/modify indexes of derived rows, peer-imported rows,
    terminating-gateway virtual IPs (system-metadata flag off), node names differing only in case,
    api-gateways, the later errors of a failed transaction (only the first failing operation). *)
-From stdpp Require Import gmap strings sorting.
+From stdpp Require Import gmap strings.
 From RecordUpdate Require Import RecordSet.
 From Coq Require Import NArith ZArith.
 Import RecordSetNotations.
@@ -200,8 +200,12 @@ Definition free_vip (name : string) (s : st) : st :=
   else if existsb (fun k => bool_decide (is_Some (confs s !! (k, name)))) vip_conf_kinds then s
   else match vips s !! name with
        | None => s
-       | Some (ip, _) => s <| vips ::= delete name |> <| free ::= fun f => {[ ip ]} ∪ f |>
+       | Some (ip, _) => s <| vips ::= delete name |> <| free := {[ ip ]} |>
        end.
+(* The free list holds at most ONE address: the id index of free-virtual-ips is
+   (StringFieldIndex "IP", is-counter) and go-memdb's StringFieldIndex reads a net.IP (a byte slice)
+   through reflect's Value.String(), which is the constant "<net.IP Value>" — every freed address
+   overwrites the previous one (observed on the real store; the overwritten address is never reused). *)
 
 Fixpoint dedup_sorted (l : list string) : list string :=
   match l with
@@ -211,7 +215,7 @@ Fixpoint dedup_sorted (l : list string) : list string :=
 
 (* AssignManualServiceVIPs: (found, unassigned-from, state) *)
 Definition manual_holder (ip : string) (s : st) : option string :=
-  match ssort (omap (fun '(n, (_, m)) => if bool_decide (ip ∈ m) then Some n else None) (map_to_list (vips s))) with
+  match ssort (omap (fun '(n, (_, m)) => if bool_decide (ip ∈ (m : list string)) then Some n else None) (map_to_list (vips s))) with
   | n :: _ => Some n
   | [] => None
   end.
